@@ -297,6 +297,22 @@ func blsSignVerify() {
 }
 
 // ---- aggregation of keys and signatures, key removal, multi-signature verification
+// offCurvePoints returns compressed E1 encodings 0x80||0..0||x for the first k small x that are
+// x-coordinates of curve points (found with the library's own parser). Such points are on the
+// curve but outside G1 (the cofactor is ~2^126): operations that accept unverified signatures or
+// shares must still produce the same bytes in every build configuration.
+func nonG1Points(k int) []crypto.Signature {
+	var out []crypto.Signature
+	for x := 1; len(out) < k && x < 200; x++ {
+		b := make([]byte, 48)
+		b[0], b[47] = 0x80, byte(x)
+		if _, err := crypto.AggregateBLSSignatures([]crypto.Signature{b}); err == nil {
+			out = append(out, b)
+		}
+	}
+	return out
+}
+
 func blsAggregation() {
 	st := newStream("bls.agg", 300, 25)
 	n := pick(24, 70)
@@ -377,6 +393,21 @@ func blsAggregation() {
 		all, _ := crypto.RemoveBLSPublicKeys(ap, pp)
 		none, _ := crypto.RemoveBLSPublicKeys(ap, nil)
 		st.addS(s.id+" remove-all/none", fmt.Sprintf("%x identity=%v none-equal=%v", all.Encode(), all.Equals(crypto.IdentityBLSPublicKey()), none.Equals(ap)))
+	}
+	// inputs outside G1 (accepted by the aggregation of unverified signatures): same bytes everywhere
+	ng := nonG1Points(6)
+	for l := 1; l <= len(ng); l++ {
+		as, err := crypto.AggregateBLSSignatures(ng[:l])
+		st.addS(fmt.Sprintf("non-G1 inputs prefix%d aggsig", l), fmt.Sprintf("%x/%s", []byte(as), errS(err)))
+		mixed := append(append([]crypto.Signature{}, sigs[:l]...), ng[:l]...)
+		as, err = crypto.AggregateBLSSignatures(mixed)
+		okv, ve := pks[0].Verify(as, msg, kmac)
+		st.addS(fmt.Sprintf("non-G1 inputs mixed%d aggsig", l), fmt.Sprintf("%x/%s verify:%s", []byte(as), errS(err), vS(okv, ve)))
+		as, err = crypto.AggregateBLSSignatures([]crypto.Signature{ng[l-1], ng[l-1]})
+		st.addS(fmt.Sprintf("non-G1 input doubled#%d", l), fmt.Sprintf("%x/%s", []byte(as), errS(err)))
+		okv, ve = pks[0].Verify(ng[l-1], msg, kmac)
+		oks, se := crypto.SPOCKVerify(pks[0], ng[l-1], pks[1], sigs[1])
+		st.addS(fmt.Sprintf("non-G1 signature#%d verdicts", l), "verify:"+vS(okv, ve)+" spock:"+vS(oks, se))
 	}
 	// empty lists, identity
 	_, e := crypto.AggregateBLSSignatures(nil)
@@ -577,7 +608,7 @@ func blsThreshold() {
 	st := newStream("bls.thr", 1<<30, 25)      // reconstruction / inspector results: all verbatim
 	ks := newStream("bls.thr.keys", 300, 25) // key shares and signature shares: bulk
 	type nt struct{ n, t int }
-	cfgs := []nt{{2, 1}, {3, 1}, {3, 2}, {5, 2}, {10, 4}, {10, 9},
+	cfgs := []nt{{2, 1}, {3, 1}, {3, 2}, {4, 3}, {5, 2}, {6, 4}, {7, 5}, {10, 4}, {10, 9},
 		// n=20: t+1 signers straddle the 8-index batches of the Lagrange coefficient loop
 		{20, 6}, {20, 7}, {20, 8}, {20, 14}, {20, 15}, {20, 16}, {20, 19},
 		// the largest group: indices up to 254 give the largest per-limb products
@@ -585,6 +616,7 @@ func blsThreshold() {
 	if thorough {
 		cfgs = append(cfgs, nt{4, 1}, nt{4, 2}, nt{4, 3}, nt{7, 3}, nt{9, 7}, nt{17, 8}, nt{33, 16}, nt{50, 24}, nt{100, 33}, nt{254, 23}, nt{254, 24}, nt{254, 127}, nt{254, 253})
 	}
+	thrNonG1 := nonG1Points(5)
 	msg := detBytes("bls-thr-msg", 0, 48)
 	tag := "c20-threshold"
 	kmac := crypto.NewExpandMsgXOFKMAC128(tag)
@@ -653,6 +685,28 @@ func blsThreshold() {
 				ok, verr = gpk.Verify(sig2, msg, kmac)
 			}
 			st.addS(lbl+" reconstruct-with-wrong-share", fmt.Sprintf("%x/%s verify:%s", []byte(sig2), errS(err), vS(ok, verr)))
+			// unverified shares outside G1 (on the curve) at the first, a middle and the last used
+			// position: the result is meaningless but must be the same bytes in every configuration
+			if si < 3 {
+				for pi, pos := range []int{0, c.t / 2, c.t} {
+					if (pi == 1 && pos == 0) || (pi == 2 && pos == c.t/2) {
+						continue
+					}
+					ss2 := make([]crypto.Signature, len(set))
+					for i, s := range set {
+						ss2[i] = shares[s]
+					}
+					ss2[pos] = thrNonG1[(pi+si)%len(thrNonG1)]
+					sig3, err := crypto.BLSReconstructThresholdSignature(c.n, c.t, ss2, set)
+					st.addS(fmt.Sprintf("%s reconstruct-with-non-G1-share@%d", lbl, pos), fmt.Sprintf("%x/%s", []byte(sig3), errS(err)))
+				}
+				allBad := make([]crypto.Signature, len(set))
+				for i := range allBad {
+					allBad[i] = thrNonG1[i%len(thrNonG1)]
+				}
+				sig4, err := crypto.BLSReconstructThresholdSignature(c.n, c.t, allBad, set)
+				st.addS(lbl+" reconstruct-all-non-G1", fmt.Sprintf("%x/%s", []byte(sig4), errS(err)))
+			}
 		}
 		// error verdicts
 		_, err = crypto.BLSReconstructThresholdSignature(c.n, c.t, shares[:c.t], first[:c.t])
